@@ -323,6 +323,17 @@ def engage_rule(chk, db):
                     want = "engaged" if st["src"] == "E" else "empty"
                     have = {"E": "is engaged", "D": "is empty", "?": "keeps whatever state it had"}[st["this"]]
                     problems.append(("state", "on the path where the source is %s the target %s" % (want, have), None))
+            # the source keeps its engagement state: [optional.ctor] / [optional.assign] move from `*rhs`, they do not reset rhs
+            for x in astx.all_exprs(f, into_lambdas=True):
+                if x.get("k") == "call":
+                    nm, q, recv, kind0 = astx.callee(x)
+                    r0 = astx.strip_casts(recv) if recv is not None else None
+                    if nm in ("reset", "emplace", "swap") and r0 is not None and r0.get("k") == "ref" and r0.get("n") == src:
+                        problems.append(("source-modified", "`%s` changes the engagement state of the source; a moved-from optional "
+                                                            "still holds its (moved-from) value in std" % astx.show(x, 40), x))
+                if x.get("k") == "bin" and x["op"] == "=" and astx.strip_casts(x["l"]) is not None and \
+                        astx.strip_casts(x["l"]).get("k") == "ref" and astx.strip_casts(x["l"]).get("n") == src:
+                    problems.append(("source-modified", "`%s` assigns to the source" % astx.show(x, 40), x))
             seen = set()
             uniq = []
             for kind, msg, node in problems:
@@ -344,6 +355,8 @@ META = (META[0] + ' SIB (cv/ref-qualified overloads of one member agree); INITFO
 
 META = (META[0] + ' REL evaluates optional and variant operators over a fourth element outcome, unordered (only != holds), because their operators are specified element-wise; TYPEDFUN (a comparison functor fixed to one template parameter is never applied to an operand declared with another; controls in fixtures/arith_pos.hpp); CONSTR (the requires-clause of optional::operator=(U&&), parsed as a boolean formula over the five standard atoms, implies the formula of [optional.assign]); L5 over the assignment operators of variant / optional (a self-assignment does not destroy the value it copies; analysis shared with C03).', META[1])
 
+META = (META[0] + ' REFQMOVE (an rvalue-qualified accessor hands the member it returns or indexes on through etl::move).', META[1])
+
 
 def run(chk, tier):
     db = D.load("checks")
@@ -359,6 +372,9 @@ def run(chk, tier):
         chk.analysis_broken("TYPEDFUN: fewer than 10 two-type-parameter templates in optional / variant / expected (floor 10)")
     _ITY.typed_functor_control(chk, D)
     constr_rule(chk, db)
+    from ..rules import extra8 as _X8r
+    if _X8r.refq_move_area(chk, db, ['_variant/', '_optional/', '_expected/']) < 6:      # REFQMOVE
+        chk.analysis_broken('REFQMOVE: fewer than 6 rvalue-qualified accessors found (floor 6)')
     # L5 (shared with C03): a self-assignment does not destroy the value it is about to copy. Only the assignment operators of
     # the single-slot owners variant / optional storage are analysed here; the full lifecycle analysis is property C03
     from . import c03 as _c03
